@@ -20,15 +20,16 @@ type C15 struct{ Seeded bool } // Seeded: provider A starts registered and holdi
 const c15Price = int64(1_000_000)
 
 type c15Model struct {
-	Price  int64            // current collateral price according to the harness' own record of parameter changes
-	Blocks int              // NextBlock events so far (bounded so that the space saturates)
-	Rec    map[string]int64 // provider -> amount locked at registration
-	Buys   int              // storage purchases so far (bounded)
+	Price    int64            // current collateral price according to the harness' own record of parameter changes
+	Blocks   int              // NextBlock events so far (bounded so that the space saturates)
+	Rec      map[string]int64 // provider -> amount locked at registration
+	Buys     int              // storage purchases so far (bounded)
+	Claimers int              // claimer authorisations so far (bounded)
 }
 
 func (m c15Model) Key() []byte { return jkey(m) }
 func (m c15Model) clone() c15Model {
-	n := c15Model{Price: m.Price, Blocks: m.Blocks, Rec: map[string]int64{}, Buys: m.Buys}
+	n := c15Model{Price: m.Price, Blocks: m.Blocks, Rec: map[string]int64{}, Buys: m.Buys, Claimers: m.Claimers}
 	for k, v := range m.Rec {
 		n.Rec[k] = v
 	}
@@ -114,6 +115,11 @@ func (s C15) Events(env world.Env, m mc.Model) []string {
 	if m.(c15Model).Blocks < 1 {
 		evs = append(evs, "NextBlock")
 	}
+	// a provider authorises another account to claim for it; that account is no provider and has nothing to shut down
+	if m.(c15Model).Claimers < 1 {
+		evs = append(evs, "AddClaimer:A:C")
+	}
+	evs = append(evs, "Shutdown:C")
 	if m.(c15Model).Buys < 1 { // other money moving through the storage module: the escrow is not its source
 		evs = append(evs, "BuyStorage:C:none", "BuyStorage:C:A")
 	}
@@ -159,6 +165,12 @@ func (C15) Apply(env world.Env, mm mc.Model, ev string) mc.Step {
 		})
 		m.Price = np
 		st.Outcome = "ok"
+	case "AddClaimer":
+		if env.Deliver(storagetypes.NewMsgAddClaimer(w.A(p[1]).Bech, w.A(p[2]).Bech)).OK() {
+			st.Outcome = "ok"
+			m.Claimers++
+			st.Exercised = append(st.Exercised, "claimer-authorised")
+		}
 	case "BuyStorage":
 		msg := storagetypes.NewMsgBuyStorage(w.A(p[1]).Bech, w.A(p[1]).Bech, 30, 1_000_000_000, "ujkl")
 		if p[2] != "none" {
